@@ -736,6 +736,9 @@ func (css *ClientSessionState) VerifiedChains() [][]*x509.Certificate {
 }
 
 func (css *ClientSessionState) SetSessionTicket(SessionTicket []uint8) {
+	if css.session == nil {
+		css.session = &SessionState{}
+	}
 	css.session.ticket = SessionTicket
 }
 
